@@ -89,8 +89,10 @@ TSilent == /\ stage = "run"
 
 TLevel == /\ stage = "run" /\ w.pc = "next"
           /\ IF ~w.st.ok THEN Reject("bounds")
+             \* the queue is empty at the end of a level (start = end, inside the ring); WHICH slot the ring has reached is an
+             \* implementation detail no property depends on (a routine restarting the ring at every level is as good)
              ELSE IF /\ Ev(l) = "level" /\ TraceLog[l].a = w.ih /\ TraceLog[l].b = w.st.lab
-                     /\ TraceLog[l].c = w.st.qs /\ TraceLog[l].d = w.st.qe /\ Arr(l) = w.st.imo
+                     /\ TraceLog[l].c = TraceLog[l].d /\ TraceLog[l].c \in 0..(NSPEC-1) /\ w.st.qs = w.st.qe /\ Arr(l) = w.st.imo
              THEN /\ w' = StepNext(w) /\ l' = l + 1 /\ UNCHANGED <<stage, e, rc, tid, prevcls>>
              ELSE Reject("level")
 
